@@ -40,6 +40,7 @@ type loopInfo struct {
 	hdrState *State
 	written  map[string]bool // heap keys written inside (from the dry run)
 	preLoop  *State
+	wm       *smt.Term
 	writtenRefs map[string]map[string]*smt.Term // keys written only at literal references
 }
 
@@ -73,6 +74,8 @@ type FnCtx struct {
 	Notes  []string
 
 	nextRef   int
+	refBase   *smt.Term
+	blockBase map[*ssa.BasicBlock]*smt.Term
 	strLits   map[string]*smt.Term
 	loops     map[*ssa.BasicBlock]*loopInfo
 	loopList  []*loopInfo
@@ -95,6 +98,10 @@ type FnCtx struct {
 	errInit map[string]bool
 	ctVals map[string]Val
 	canonDone map[string]bool
+	staticOrd map[ssa.Instruction]int
+	staticName map[ssa.Instruction]string
+	typeInvUsed map[string]bool
+	refKeys map[string]bool
 	byteDone map[string]bool
 	lastElemsSlice *smt.Term
 	ifaces map[string]types.Type
@@ -161,6 +168,8 @@ func (fc *FnCtx) reset(dry bool) {
 	fc.Used = map[string]bool{}
 	fc.Notes = nil
 	fc.nextRef = 0
+	fc.refBase = nil
+	fc.blockBase = map[*ssa.BasicBlock]*smt.Term{}
 	fc.strLits = map[string]*smt.Term{}
 	fc.defers = nil
 	fc.callOrd = map[string]int{}
@@ -176,6 +185,8 @@ func (fc *FnCtx) reset(dry bool) {
 	fc.errInit = map[string]bool{}
 	fc.ctVals = map[string]Val{}
 	fc.canonDone = map[string]bool{}
+	fc.typeInvUsed = map[string]bool{}
+	fc.refKeys = map[string]bool{}
 	fc.byteDone = map[string]bool{}
 	fc.ifaces = map[string]types.Type{}
 	fc.typeObjs = map[string]types.Type{}
@@ -203,6 +214,7 @@ func (fc *FnCtx) Generate() (err error) {
 		}
 	}()
 	fc.findLoops()
+	fc.callOrdinals()
 	// dry run: collect heap keys written inside each loop
 	fc.reset(true)
 	fc.run()
@@ -351,6 +363,18 @@ func (fc *FnCtx) getHeap(st *State, key string, valSort smt.Sort) *smt.Term {
 		r := smt.Const("r!g", smt.Int)
 		fc.S.Assert(smt.Forall([]*smt.Term{r}, smt.Implies(smt.Le(r, smt.IntLit(0)), smt.Not(smt.Select(t, r))), []*smt.Term{smt.Select(t, r)}), "")
 	}
+	// entry heap: everything it holds existed before this call, so it is not one of the
+	// (negative) references allocated by this function
+	if _, vs, ok := smt.ArrParts(as); ok {
+		r := smt.Const("r!h", smt.Int)
+		sel := smt.Select(t, r)
+		switch {
+		case vs == smt.Slice:
+			fc.S.Assert(smt.Forall([]*smt.Term{r}, smt.Ge(smt.SlArr(sel), smt.IntLit(0)), []*smt.Term{sel}), "entry heap holds no fresh references")
+		case vs == smt.Int && fc.refKeys[key]:
+			fc.S.Assert(smt.Forall([]*smt.Term{r}, smt.Ge(sel, smt.IntLit(0)), []*smt.Term{sel}), "entry heap holds no fresh references")
+		}
+	}
 	fc.entry.H[key] = t
 	st.H[key] = t
 	return t
@@ -394,7 +418,7 @@ func (fc *FnCtx) constTableField(st *State, key string, ref *smt.Term) (*smt.Ter
 		// look through stores at fresh (negative literal) references
 		c := fc.S.Resolve(cur, 1)
 		for c.Op == "store" {
-			if lit, ok := c.Args[1].IsIntLit(); ok && lit < 0 {
+			if _, ok := freshRefKey(c.Args[1]); ok {
 				c = fc.S.Resolve(c.Args[0], 1)
 				continue
 			}
@@ -430,11 +454,11 @@ func (fc *FnCtx) writeKey(st *State, key string, ref, v *smt.Term) {
 	if key == "Error.err" && !fc.inAlloc {
 		fc.errStore(ref, v, fc.pos(0))
 	}
-	if lit, ok := v.IsIntLit(); ok && lit < 0 && v.Sort == smt.Int {
-		fc.escaped[v.Op] = true
+	if k, ok := freshRefKey(v); ok && v.Sort == smt.Int {
+		fc.escaped[k] = true
 	}
 	if fc.dry && fc.curBlock != nil {
-		if _, isLit := ref.IsIntLit(); isLit {
+		if _, isFresh := freshRefKey(ref); isFresh {
 			m := fc.writtenRefs[fc.curBlock]
 			if m == nil {
 				m = map[string]map[string]*smt.Term{}
@@ -443,7 +467,7 @@ func (fc *FnCtx) writeKey(st *State, key string, ref, v *smt.Term) {
 			if m[key] == nil {
 				m[key] = map[string]*smt.Term{}
 			}
-			m[key][ref.Op] = ref
+			m[key][ref.String()] = ref
 			fc.setHeapQuiet(st, key, smt.Store(fc.getHeap(st, key, v.Sort), ref, v))
 			return
 		}
@@ -492,7 +516,11 @@ func (fc *FnCtx) fieldKey(structT types.Type, idx int) (key string, ft types.Typ
 	if _, isNamed := structT.(*types.Named); !isNamed {
 		name = "struct@" + fc.pos(f.Pos())
 	}
-	return name + "." + f.Name(), f.Type()
+	key = name + "." + f.Name()
+	if k := kindOf(f.Type()); (k == KRef || k == KPtr) && fc.refKeys != nil {
+		fc.refKeys[key] = true
+	}
+	return key, f.Type()
 }
 
 func (fc *FnCtx) subRef(key string, base *smt.Term) *smt.Term {
@@ -502,9 +530,31 @@ func (fc *FnCtx) subRef(key string, base *smt.Term) *smt.Term {
 	return t
 }
 
+// newRef returns the reference of a freshly allocated object. Outside loops
+// references are the literals -1, -2, ...; inside a loop they are wm - k for
+// the loop's watermark wm (a symbol below every reference existing at the
+// loop header), so that objects allocated in one iteration are distinct from
+// everything the loop-carried state can mention.
 func (fc *FnCtx) newRef() *smt.Term {
 	fc.nextRef++
-	return smt.IntLit(int64(-fc.nextRef))
+	if fc.refBase == nil {
+		return smt.IntLit(int64(-fc.nextRef))
+	}
+	return smt.App("+", smt.Int, fc.refBase, smt.IntLit(int64(-fc.nextRef)))
+}
+
+// freshRefKey reports whether t is a reference allocated by this function
+// (a negative literal or watermark-relative) and returns a key identifying it.
+func freshRefKey(t *smt.Term) (string, bool) {
+	if lit, ok := t.IsIntLit(); ok {
+		return t.Op, lit < 0
+	}
+	if t.Op == "+" && len(t.Args) == 2 && strings.HasPrefix(t.Args[0].Op, "wm_") {
+		if _, ok := t.Args[1].IsIntLit(); ok {
+			return t.String(), true
+		}
+	}
+	return "", false
 }
 
 // ---- typed values ------------------------------------------------------------
@@ -741,7 +791,12 @@ func (fc *FnCtx) loaded(t *smt.Term, ty types.Type) Val {
 	case KStr:
 		fc.S.Assert(smt.Le(smt.SLen(t), maxLen), "")
 	case KSlice:
-		fc.S.Assert(smt.And(smt.Le(smt.IntLit(0), smt.SlOff(t)), smt.Le(smt.IntLit(0), smt.SlLen(t)), smt.Le(smt.SlLen(t), smt.SlCap(t)), smt.Le(smt.SlCap(t), maxLen)), "")
+		k := t.String()
+		if !fc.byteDone["sl:"+k] {
+			fc.byteDone["sl:"+k] = true
+			fc.S.Assert(smt.And(smt.Le(smt.IntLit(0), smt.SlOff(t)), smt.Le(smt.IntLit(0), smt.SlLen(t)), smt.Le(smt.SlLen(t), smt.SlCap(t)), smt.Le(smt.SlCap(t), maxLen),
+				smt.Implies(smt.Eq(smt.SlArr(t), smt.IntLit(0)), smt.And(smt.Eq(smt.SlCap(t), smt.IntLit(0)), smt.Eq(smt.SlOff(t), smt.IntLit(0))))), "")
+		}
 	}
 	return fc.fromTerm(t, ty)
 }
@@ -932,6 +987,7 @@ func (fc *FnCtx) run() {
 		}
 	}
 	fc.emitGlobalAxioms(st0)
+	fc.assumeTypeInvs(st0)
 	fc.splitCases = nil
 	if fc.C != nil && len(fc.C.Split) > 0 {
 		var all []*smt.Term
@@ -1010,6 +1066,16 @@ func (fc *FnCtx) block(b *ssa.BasicBlock, st0 *State) {
 		}
 	}
 	fc.curReach = fc.reach[b]
+	// allocation watermark: inherited from the (first reachable) predecessor
+	fc.refBase = nil
+	for _, p := range b.Preds {
+		if fc.isBackEdge(p, b) || fc.reach[p] == nil {
+			continue
+		}
+		if pb, ok := fc.blockBase[p]; ok && pb != nil {
+			fc.refBase = pb
+		}
+	}
 	if li != nil {
 		st = fc.loopHeader(li, st)
 	}
@@ -1021,6 +1087,7 @@ func (fc *FnCtx) block(b *ssa.BasicBlock, st0 *State) {
 		fc.instr(in, st)
 	}
 	fc.out[b] = st
+	fc.blockBase[b] = fc.refBase
 }
 
 func (fc *FnCtx) phiEdgeVal(phi *ssa.Phi, pred, b *ssa.BasicBlock) Val {
@@ -1064,7 +1131,7 @@ func (fc *FnCtx) mergeStates(preds []*ssa.BasicBlock, guards []*smt.Term, b *ssa
 		for i := len(ts) - 2; i >= 0; i-- {
 			m = smt.Ite(guards[i], ts[i], m)
 		}
-		st.H[k] = fc.S.Define(fmt.Sprintf("Hm_%s_b%d", k, b.Index), m)
+		st.H[k] = fc.S.Name(fmt.Sprintf("Hm_%s_b%d", k, b.Index), m)
 	}
 	return st
 }
@@ -1113,7 +1180,7 @@ func (fc *FnCtx) mergeVals(vs []Val, guards []*smt.Term, hint string) Val {
 	for i := len(ts) - 2; i >= 0; i-- {
 		m = smt.Ite(guards[i], ts[i], m)
 	}
-	return fc.fromTerm(fc.S.Define(hint, m), v0.GoT)
+	return fc.fromTerm(fc.S.Name(hint, m), v0.GoT)
 }
 
 // val returns the symbolic value of an SSA value.
@@ -1231,5 +1298,29 @@ func (fc *FnCtx) emitGlobalAxioms(st *State) {
 		ec := &evalCtx{fc: fc, vars: map[string]Val{}, cur: st, old: st}
 		fc.S.Assert(ec.boolean(ax.E), "axiom "+ax.Name)
 		fc.Used["axiom "+ax.Name+" ("+shortFile(ax.File)+")"] = true
+	}
+}
+
+// assumeTypeInvs assumes, for every parameter whose type has a declared type
+// invariant, that the invariant holds (except in the constructor itself).
+func (fc *FnCtx) assumeTypeInvs(st *State) {
+	for _, ti := range fc.P.Spec.TypeInvs {
+		if ti.Ctor == fc.Name {
+			continue
+		}
+		want := fc.P.goTypeByName(ti.Type)
+		if want == nil {
+			continue
+		}
+		for _, p := range fc.Fn.Params {
+			if !types.Identical(p.Type(), want) {
+				continue
+			}
+			v := fc.vals[p]
+			ec := &evalCtx{fc: fc, vars: map[string]Val{ti.Var: v}, cur: st, old: st}
+			fc.S.Assert(smt.Implies(smt.Neq(fc.term(v), smt.IntLit(0)), ec.boolean(ti.E)), "type invariant of "+ti.Type)
+			fc.Used["type invariant of "+ti.Type+" (established by "+ti.Ctor+", the only function allocating the type: scan; fields immutable: scan)"] = true
+			fc.typeInvUsed[ti.Type] = true
+		}
 	}
 }
